@@ -146,6 +146,8 @@ def handleStages (j : Json) : Except String Json := do
   pure (Json.mkObj [("stages", Json.arr (stages.toArray.map natListJ)),
                     ("trained", natListJ s.trained.reverse), ("included", natListJ s.included.reverse),
                     ("topo", Json.bool (topoLB g [] nodes)),
+                    ("required", Json.arr ((required g nodes).toArray.map fun rel =>
+                      Json.arr (rel.toArray.map fun (n, cs) => Json.arr #[Json.num (JsonNumber.fromNat n), natListJ cs]))),
                     ("route_faults", Json.arr ((routeFaults g nodes).toArray.map fun f =>
                       match f with
                       | .order c => Json.mkObj [("kind", Json.str "order"), ("node", Json.num (JsonNumber.fromNat c))]
